@@ -52,12 +52,27 @@ FLAGS_POOL = [1, 1, 1, 2, 0x41, 0x21, 0x11, 0x09, 0x05, 0, 0x7f]
 # build and run the pairtest binary
 
 _pair_bin = None
+_built_from = None
+
+
+def repo_fingerprint():
+    """HEAD and the uncommitted changes under dnp3/ of the checkout the binary is built from.  Other
+    work in this sandbox edits /repo's working tree now and then (temporary mutations of other
+    properties' self-tests): a run whose tree changed between the build and the last script says
+    nothing about either tree and is repeated once."""
+    try:
+        head = subprocess.run(["git", "-C", REPO, "rev-parse", "HEAD"], stdout=subprocess.PIPE, text=True, timeout=60).stdout.strip()
+        diff = subprocess.run(["git", "-C", REPO, "diff", "HEAD", "--", "dnp3"], stdout=subprocess.PIPE, timeout=60).stdout
+        return "%s+%s" % (head[:12], hashlib.sha256(diff).hexdigest()[:12] if diff else "clean")
+    except Exception as e:       # not a git checkout: nothing to compare
+        return "unknown"
 
 
 def build_pairtest():
-    global _pair_bin
+    global _pair_bin, _built_from
     if _pair_bin:
         return _pair_bin
+    _built_from = repo_fingerprint()
     default_repo = os.path.realpath(REPO) == "/repo"
     if default_repo:
         build_dir, target = PAIR_DIR, TARGET_PAIR
@@ -141,8 +156,17 @@ def run_pair_shards(scripts, workdir, tag):
 
 
 def c02_run_cases(prop, cases, tag):
+    global _pair_bin
     work = os.path.join(WORK, prop.id)
     impl = run_pair_shards([c.script for c in cases], work, tag)
+    after = repo_fingerprint()
+    prop.totals["built_from"] = _built_from
+    if after != _built_from:
+        # the source tree was edited while the scripts ran: build again and repeat the run once
+        prop.totals["tree_changed_during_run"] = "%s -> %s (run repeated)" % (_built_from, after)
+        _pair_bin = None
+        impl = run_pair_shards([c.script for c in cases], work, tag + "_again")
+        prop.totals["built_from"] = _built_from
     model = {c.sid: ["n/a (impl_only: the clauses are checked directly on the trace of the real stack)"] for c in cases}
     return impl, model
 
@@ -229,7 +253,7 @@ def analyse(script, trace):
     fails = []
     stats = {"events_created": 0, "events_discarded": 0, "event_deliveries": 0, "static_deliveries": 0,
              "cuts": 0, "reconnects": 0, "flips": 0, "quiesced": 0, "points": 0, "commands_ok": 0,
-             "multi_fragment_series": 0, "unsol_fragments": 0, "reconnect_in_confirm_wait": 0}
+             "multi_fragment_series": 0, "unsol_fragments": 0, "reconnect_in_confirm_wait": 0, "connections_overlapping_a_session": 0}
 
     def fail(clause, text):
         if len(fails) < 12:
@@ -254,10 +278,15 @@ def analyse(script, trace):
     last_sol_end = -1      # position of the last end of a complete solicited series
     in_series_frags = 0
     final_db, final_seen = {}, {}
+    single_series = []     # static points delivered by each complete `single` (explicit) read series
+    cur_single = None
     outcome = None
     connected_once = False
     waiting = None         # position of the outstation's last confirm wait that has not been resolved
     reconnects = []        # positions at which the master established a NEW connection
+    overlapped = []        # positions at which the proxy opened a new connection to the outstation while an
+                           # earlier session of the outstation had not ended (or not even started) yet
+    n_popen = n_oconn = n_odisc = 0
 
     for pos, l in enumerate(trace):
         t = l.split()
@@ -330,6 +359,8 @@ def analyse(script, trace):
         elif k == "h":
             ty, idx, kind = t[1], int(t[2]), t[6]
             hlines.append((pos, ty, idx, kind, proj_h(ty, kind, t[3], t[4], t[5]), l, series_start))
+            if cur_single is not None and kind == "static":
+                cur_single.add((ty, idx))
             stats["event_deliveries" if kind == "event" else "static_deliveries"] += 1
         elif k == "frag":
             unsol = t[2] == "unsol"
@@ -340,9 +371,13 @@ def analyse(script, trace):
                 elif fir:
                     series_start = last_sol_end
                     in_series_frags = 1
+                    cur_single = set() if t[2] == "single" else None
                 else:
                     in_series_frags += 1
             elif not unsol and fin:
+                if cur_single is not None and t[2] == "single":
+                    single_series.append(cur_single)
+                cur_single = None
                 if in_series_frags > 1:
                     stats["multi_fragment_series"] += 1
                 last_sol_end = pos
@@ -360,6 +395,18 @@ def analyse(script, trace):
                 connected_once = True
         elif k == "oi":
             waiting = pos if t[1] in ("solwait", "unsolwait") else None
+        elif k == "popen":
+            # all earlier connections have had their session started AND ended: the outstation has
+            # cleaned up (error path); otherwise the server may replace the running session
+            if not (n_oconn == n_popen and n_odisc == n_popen):
+                overlapped.append(pos)
+                stats["connections_overlapping_a_session"] += 1
+            n_popen += 1
+        elif k == "oconn":
+            if t[1] == "connected":
+                n_oconn += 1
+            else:
+                n_odisc += 1
         elif k == "cutfired":
             stats["cuts"] += 1
         elif k == "flipfired":
@@ -428,11 +475,14 @@ def analyse(script, trace):
                 fail("fabricated|invented", "handler delivery `%s` is not %s, nor a value of any point" % (raw, where))
 
     def circumstance(e, until):
-        """the open finding "session replaced" (residual of F16: a new TCP connection replaces the session while a response carrying
-        events awaits its confirm: the events stay in the written state) needs the master to have
-        established a new connection while the event was in the buffer; the signature records it"""
-        if any(e.mpos < r and (until is None or r < until) for r in reconnects):
-            return "|reconnect-while-buffered"
+        """the open finding "session replaced" (residual of F16): a new TCP connection reaches the
+        outstation while its session on the old connection has not ended; the server then replaces the
+        session without the clean-up, and events of a response awaiting its confirm stay in the written
+        state.  The signature records that such a connection was opened while the event was buffered;
+        when every earlier session had ended before the connection was opened, the clean-up has run and
+        a lost event is NOT this finding."""
+        if any(e.mpos < r and (until is None or r < until) for r in overlapped):
+            return "|connection-overlapping-session"
         return ""
 
     cleared_at = {}
@@ -455,6 +505,14 @@ def analyse(script, trace):
     if has_quiesce and outcome != "quiesced":
         fail("converged|no-quiescence", "10 s after the last update/command/cut no integrity poll followed by an empty event poll had completed (%s)" % (outcome or "no outcome line"))
     if outcome == "quiesced":
+        # the integrity poll issued by `quiesce` completed (AssociationHandle::read returned Ok): by C11 its
+        # series carries every point, whether or not the master already had the value
+        last_integrity = next((x for x in reversed(single_series) if x), None)
+        if last_integrity is not None:
+            for key in sorted(ledger):
+                if key not in last_integrity:
+                    fail("converged|integrity-incomplete", "%s: the integrity poll that completed after quiescence did not report this point"
+                         % describe(key))
         # (a) converged
         for key in ledger:
             dbv, seen = final_db.get(key), final_seen.get(key)
@@ -558,8 +616,10 @@ class C02(Prop):
         values = {}
         # points: several types, several classes
         if kind == "wide":
-            ty = rng.choice(["ai", "ctr", "fctr", "aos", "bi", "dbbi"])
-            cnt = rng.range(20, 40)
+            # enough points of one type for the static data to span several fragments of a small buffer
+            ty, lo, hi = rng.choice([("ai", 30, 45), ("aos", 30, 45), ("ctr", 52, 70), ("fctr", 24, 36)])
+            cnt = rng.range(lo, hi)
+            cfg["osol"] = rng.choice([249, 249, 250, 300])
             start = rng.choice([0, 0, 1, 250, 65536 - cnt])
             for i in range(cnt):
                 points.append((ty, start + i, rng.choice(["1", "2", "3"])))
